@@ -14,11 +14,19 @@ const verif::Info verif_info = {
     "C01", 900,
     "enumerated: every Unicode scalar value (1,112,064) alone (quick) and in 13 contexts - alone, before/after/between a 1-,2-,3-,4-byte neighbour "
     "(thorough) - through the 6 UTF<->UTF free functions x 3 modes, the wchar_t aliases and ST::string from_*/to_*; all 256 Latin-1 bytes and all 65,536 "
-    "ordered pairs to every UTF form and back. Generated: scalar sequences of 0..300 values (boundary-biased: 0,7F/80,7FF/800,D7FF/E000,FFFF/10000,10FFFF; "
-    "lengths around the small-buffer limits and 256) through every public route - pointer+length, buffer, char8_t, std::basic_string and string_view "
-    "constructors/set/operator=/from_std_string, from_*/to_* members, to_std_*string, to_buffer, literal operators - in all three modes. Oracle: exact "
-    "equality of code units with the reference standard encoding of the same scalar sequence, size and terminator. Non-trivial: the sequence contains a "
-    "scalar >= U+0080.",
+    "ordered pairs to every UTF form and back; a grid of long texts (runs of one identical 2-/3-/4-byte or Latin-1 high character, 256 Ki..320 Ki units of "
+    "each anchor encoding and one off; up to 1 Mi and mixed patterns in the thorough tier) through every conversion pair; 16 compiled-in literals in every "
+    "literal form (ST_LITERAL, ST_CHAR/WCHAR/UTF16/UTF32_LITERAL, _st, _stbuf with each prefix; embedded and trailing NULs). Generated: scalar sequences of "
+    "0..300 values (boundary-biased: 0,7F/80,7FF/800,D7FF/E000,FFFF/10000,10FFFF; lengths around the small-buffer limits and 256) through every public "
+    "route - pointer+length, buffer, char8_t, std::basic_string and string_view constructors/set/operator=/from_std_string, from_*/to_* members, "
+    "to_std_*string, to_buffer, literal operators - in all three modes, then the extended routes of one source encoding (gen/conv_calls_ext.h): calls "
+    "omitting the mode, C-string (ST_AUTO_SIZE) overloads of every width incl. char8_t, set_validated/from_validated (all overloads), std::filesystem::path "
+    "in and out, caller-supplied-output overloads (to_buffer / to_std_string of every type) on pre-filled targets, the deprecated utf_validation_t "
+    "overloads, view()/view(start,length) of strings and buffers, ST::null forms, targets in ten pre-states (default, short, heap, moved-from, nulled, "
+    "cleared, at the small-string limit), operator+ / operator+= with C strings and single char/wchar_t/char16_t/char32_t on either side, the text "
+    "rebuilt character by character, and set()/operator=/+= from pointers and views into the target itself (a scalar-aligned slice) in all three modes; "
+    "first byte 0xFD: long texts (pattern repeated to an exact multiple of 1 Ki..1 Mi units or one off). Oracle: exact equality of code units with the "
+    "reference standard encoding of the same scalar sequence, size and terminator. Non-trivial: the sequence contains a scalar >= U+0080.",
     true, "exploration"};
 
 namespace {
